@@ -1,5 +1,6 @@
 import JugModel.Props.C01
 import JugModel.Props.WorkerBridge
+import JugModel.Props.LoopBridge
 #print axioms Jug.C01.exec_sound
 #print axioms Jug.C01.loads_are_reference
 #print axioms Jug.C01.load_enabled
@@ -10,3 +11,5 @@ import JugModel.Props.WorkerBridge
 #print axioms Jug.C01.exec_complete_reference
 #print axioms Jug.WorkerBridge.worker_scans_all
 #print axioms Jug.WorkerBridge.worker_conforms
+#print axioms Jug.LoopBridge.loop_scans_all
+#print axioms Jug.LoopBridge.loop_fuel_sufficient
